@@ -6,8 +6,9 @@
 set -u
 diff=$(readlink -f "$1"); shift
 cd /verif
+SA=${SA_BIN:-./bin/sa}
 base=/tmp/repo-dev; [ -d $base ] || base=/repo
-props=("$@"); if [ ${#props[@]} -eq 0 ]; then props=($(./bin/sa list | grep -o '^C[0-9]*')); fi
+props=("$@"); if [ ${#props[@]} -eq 0 ]; then props=($($SA list | grep -o '^C[0-9]*')); fi
 tmp=$(mktemp -d /tmp/pchk.XXXX)
 rsync -a --exclude .git $base/ $tmp/repo/
 (cd $tmp/repo && patch -p1 -s < $diff) || { echo "RESULT patch-does-not-apply"; rm -rf $tmp; exit 2; }
@@ -15,7 +16,7 @@ export PATH=/opt/veriftools/go1.26.8/bin:$PATH GOFLAGS=-mod=mod GOPROXY=off GOSU
 (cd $tmp/repo && go build ./... 2>$tmp/build.err) || { echo "RESULT nocompile: $(head -3 $tmp/build.err | tr '\n' ' ')"; rm -rf $tmp; exit 2; }
 mkdir -p $tmp/v; cp known_findings.txt $tmp/v/
 for p in "${props[@]}"; do
-  ( ./bin/sa check -prop $p -tier quick -repo $tmp/repo -verif $tmp/v > $tmp/$p.log 2>&1; echo $? > $tmp/$p.rc ) &
+  ( $SA check -prop $p -tier quick -repo $tmp/repo -verif $tmp/v > $tmp/$p.log 2>&1; echo $? > $tmp/$p.rc ) &
   while [ $(jobs -r | wc -l) -ge 10 ]; do sleep 0.2; done
 done
 wait
